@@ -122,7 +122,7 @@ def scenario(r, big):
     pf = P(f, r.choice(bodies))
     pf2 = P(f, r.choice([b for b in bodies if b != pf["body"]]))
     steps = [{"ev": "Cfg", "n": n, "faulty": [f]}]
-    kind = r.choice(["full", "equiv", "equiv", "relay", "relay", "relay_slot", "xsess", "xid", "lists", "lists", "unknown",
+    kind = r.choice(["full", "equiv", "equiv", "relay", "relay", "relay_slot", "xsess", "xid", "lists", "lists", "unknown", "framing",
                      "junk", "honest_twice", "lossy", "freply", "toself", "mix", "mix", "nofaulty", "slots",
                      "conc", "conc", "conc"])
 
@@ -136,7 +136,18 @@ def scenario(r, big):
         r.shuffle(rs)
         return [fsend(f, x, ss, ii, pl, lst if lst is not None else exact(n, ss, ii, pl)) for x in rs]
 
-    if kind == "full":
+    if kind == "framing":
+        # framing twins: two different well-formed payloads of f whose type URL || value is the same byte string (the
+        # executor builds the encodings, harness/c13 twinAny): signatures collected for one, the other one sent with them
+        t1, t2 = dict(P(f, ""), enc="p1"), dict(P(f, "tw2"), enc="p2")
+        a, b = (t1, t2) if r.random() < 0.5 else (t2, t1)
+        k = r.randint(1, len(hon))
+        steps += collect(a, hon)
+        steps += send_all(b, r.sample(hon, k), lst=exact(n, s, i, a))       # signed a, sent b: refused
+        steps += send_all(a, r.sample(hon, r.randint(1, len(hon))))            # the signed one is delivered
+        steps += collect(b, r.sample(hon, r.randint(1, len(hon))))             # second payload under the id: no grant
+        steps += send_all(b, r.sample(hon, 1))
+    elif kind == "full":
         steps += collect(pf, hon) + send_all(pf)
         steps += collect(pf2, hon) + send_all(pf2)        # second payload under the same id: refused everywhere
     elif kind == "equiv":
